@@ -7,6 +7,7 @@
 //!   deltio-replay run-history '<json ops>'          re-run one stored history
 //!
 //! Output: one line `WITNESS <json>` for the first divergence found (exit 1), or `NO-WITNESS <stats>` (exit 0).
+mod rpc;
 use bytes::Bytes;
 use deltio::paging::Paging;
 use deltio::subscriptions::subscription_manager::SubscriptionManager;
@@ -119,7 +120,14 @@ impl Model {
     }
     fn earliest(&self) -> Option<Instant> { self.leases.values().map(|(_, d)| *d).min() }
 }
-struct Fail { prop: &'static str, what: String }
+pub struct Fail { pub prop: &'static str, pub what: String }
+/// "C10+C11" -> "\"property\":\"C10\",\"also\":[\"C11\"]"
+pub fn prop_json(p: &str) -> String {
+    let mut it = p.split('+');
+    let first = it.next().unwrap_or("");
+    let rest: Vec<String> = it.map(|x| format!("\"{}\"", x)).collect();
+    format!("\"property\":\"{}\",\"also\":[{}]", first, rest.join(","))
+}
 
 async fn settle() {
     // let the actor task run: timers (1 ms granularity) and mailbox
@@ -174,7 +182,7 @@ async fn run_history(ops: &[Op], ack_deadline_s: u64) -> Result<(), Fail> {
                     if m.leases.values().any(|(x, _)| *x == id) { return fail("C03", format!("message {} handed out while its previous delivery is still outstanding", id)); }
                     let pos = match m.pending.iter().position(|x| *x == id) { Some(p) => p, None => return fail("C01", format!("message {} delivered but was never published to this subscription / not pending", id)) };
                     let aid: u64 = p.ack_id().to_string().parse().unwrap();
-                    if m.used_ack_ids.contains(&aid) { return fail("C03", format!("ack id {} was used before on this subscription", aid)); }
+                    if m.used_ack_ids.contains(&aid) { return fail("C03+C02", format!("ack id {} was used before on this subscription", aid)); }
                     let dl = p.deadline().time();
                     if dl < now + d { return fail("C04", format!("deadline {:?} before hand-out + ack deadline", (now + d).duration_since(dl))); }
                     if dl >= now + d + Duration::from_millis(1000) { return fail("C04", format!("deadline {:?} later than hand-out + ack deadline + 1 s", dl.duration_since(now + d))); }
@@ -315,7 +323,7 @@ fn cmd_history(seed: u64, iters: usize, steps: usize) -> i32 {
                 match rt().block_on(run_history(&t, d)) { Err(f) if f.prop == e.prop => { cur = t; } _ => { i += 1; } }
             }
             let e2 = rt().block_on(run_history(&cur, d)).err().unwrap_or(e);
-            println!("WITNESS {{\"kind\":\"history\",\"property\":\"{}\",\"ack_deadline_s\":{},\"ops\":{},\"observed\":{:?},\"iteration\":{}}}", e2.prop, d, ops_to_json(&cur), e2.what, it);
+            println!("WITNESS {{\"kind\":\"history\",{},\"ack_deadline_s\":{},\"ops\":{},\"observed\":{:?},\"iteration\":{}}}", prop_json(e2.prop), d, ops_to_json(&cur), e2.what, it);
             return 1;
         }
     }
@@ -495,7 +503,10 @@ fn cmd_paging(n: usize) -> i32 {
     for k in [0usize, 1, 2, n] {
         match rt().block_on(paging_walk(k)) {
             Ok(_) => {}
-            Err(e) => { println!("WITNESS {{\"kind\":\"paging\",\"property\":\"C13\",\"resources\":{},\"observed\":{:?}}}", k, e); return 1; }
+            Err(e) => {
+                let also = if e.contains("panicked") || e.contains("error instead of a page") { ",\"also\":[\"C17\"]" } else { "" };
+                println!("WITNESS {{\"kind\":\"paging\",\"property\":\"C13\"{},\"resources\":{},\"observed\":{:?}}}", also, k, e); return 1;
+            }
         }
     }
     println!("NO-WITNESS paging n={}", n);
@@ -506,7 +517,7 @@ fn cmd_paging(n: usize) -> i32 {
 // lifecycle histories over a small pool of names: namespaces as maps (C10), deletion consistency (C11),
 // global id uniqueness (C09), fan-out to exactly the attached subscriptions (C01), listing order (C13)
 #[derive(Clone, Debug)]
-enum LOp { CreateTopic(usize), DeleteTopic(usize, bool), CreateSub(usize, usize, bool), RaceCreateSub(usize, usize), DeleteSub(usize), Publish(usize, u8), DropHandles }
+enum LOp { CreateTopic(usize), DeleteTopic(usize, bool), CreateSub(usize, usize, bool), RaceCreateSub(usize, usize), DeleteSub(usize), Publish(usize, u8), DropHandles, DeleteHeld }
 fn lop_json(o: &LOp) -> String {
     match o {
         LOp::CreateTopic(t) => format!("[\"create_topic\",{}]", t),
@@ -516,6 +527,7 @@ fn lop_json(o: &LOp) -> String {
         LOp::DeleteSub(s) => format!("[\"delete_sub\",{}]", s),
         LOp::Publish(t, n) => format!("[\"publish\",{},{}]", t, n),
         LOp::DropHandles => "[\"drop_handles\"]".to_string(),
+        LOp::DeleteHeld => "[\"delete_held\"]".to_string(),
     }
 }
 fn lops_json(v: &[LOp]) -> String { format!("[{}]", v.iter().map(lop_json).collect::<Vec<_>>().join(",")) }
@@ -533,6 +545,7 @@ fn parse_lops(s: &str) -> Vec<LOp> {
             "delete_sub" => out.push(LOp::DeleteSub(n(1))),
             "publish" => out.push(LOp::Publish(n(1), n(2) as u8)),
             "drop_handles" => out.push(LOp::DropHandles),
+            "delete_held" => out.push(LOp::DeleteHeld),
             _ => {}
         }
     }
@@ -569,7 +582,7 @@ async fn run_lifecycle(ops: &[LOp]) -> Result<(), Fail> {
                     topics[*t].subs.clear();
                     if *keep { held.push(h); }
                 } else if topics[*t].alive { return fail("C10", "get_topic does not find a live topic".into()); }
-                if tm.get_topic(&tname(*t)).is_ok() { return fail("C10", "topic still present after DeleteTopic returned".into()); }
+                if tm.get_topic(&tname(*t)).is_ok() { return fail("C10+C11", "topic still present after DeleteTopic returned".into()); }
             }
             LOp::CreateSub(s, t, cross) => {
                 if let Ok(h) = tm.get_topic(&tname(*t)) {
@@ -604,7 +617,7 @@ async fn run_lifecycle(ops: &[LOp]) -> Result<(), Fail> {
                         subs[*s].alive = false;
                         let t = subs[*s].topic;
                         topics[t].subs.retain(|x| x != s);
-                        if sm.get_subscription(&sname(*s, false)).is_ok() { return fail("C11", "subscription still registered after DeleteSubscription returned OK".into()); }
+                        if sm.get_subscription(&sname(*s, false)).is_ok() { return fail("C10+C11", "subscription still registered after DeleteSubscription returned OK".into()); }
                     }
                     Err(_) => { if subs[*s].alive { return fail("C10", "get_subscription does not find a live subscription".into()); } }
                 }
@@ -622,8 +635,23 @@ async fn run_lifecycle(ops: &[LOp]) -> Result<(), Fail> {
                 }
             }
             LOp::DropHandles => { held.clear(); }
+            LOp::DeleteHeld => {
+                // a late, duplicate DeleteTopic addressed to handles of already deleted incarnations: must be a no-op
+                for h in held.iter() { let _ = h.delete().await; }
+            }
         }
-        // ---- observable state after every step
+        // ---- observable state after every step; a wrong SET of resources is attributed to the kind of step that
+        // produced it (create -> C10, delete -> C11), a wrong ORDER of the right set to C13
+        let state_tag: &'static str = match op {
+            LOp::CreateTopic(_) | LOp::CreateSub(_, _, _) | LOp::RaceCreateSub(_, _) => "C10",
+            LOp::DeleteTopic(_, _) | LOp::DeleteSub(_) | LOp::DeleteHeld | LOp::DropHandles => "C11",
+            LOp::Publish(_, _) => "C01",
+        };
+        let set_or_order = |got: &Vec<String>, want: &Vec<String>| -> &'static str {
+            let (mut g, mut w) = (got.clone(), want.clone());
+            g.sort(); w.sort();
+            if g == w { "C13" } else { state_tag }
+        };
         for (i, sr) in subs.iter().enumerate() {
             if !sr.alive { continue; }
             let h = match sm.get_subscription(&sname(i, false)) { Ok(h) => h, Err(_) => return fail("C10", format!("live subscription s{} not found", i)) };
@@ -636,18 +664,21 @@ async fn run_lifecycle(ops: &[LOp]) -> Result<(), Fail> {
         let mut want_t: Vec<(u64, String)> = topics.iter().enumerate().filter(|(_, t)| t.alive).map(|(i, t)| (t.order, tname(i).to_string())).collect();
         want_t.sort();
         let got_t: Vec<String> = tm.list_topics(Box::from("p"), Paging::new(0, None)).map_err(|_| Fail { prop: "C13", what: "list_topics failed".into() })?.topics.iter().map(|t| t.name.to_string()).collect();
-        if got_t != want_t.iter().map(|x| x.1.clone()).collect::<Vec<_>>() { return fail("C13", format!("ListTopics = {:?}, expected {:?}", got_t, want_t)); }
+        let want_tn: Vec<String> = want_t.iter().map(|x| x.1.clone()).collect();
+        if got_t != want_tn { return fail(set_or_order(&got_t, &want_tn), format!("ListTopics = {:?}, expected {:?}", got_t, want_tn)); }
         let mut want_s: Vec<(u64, String)> = subs.iter().enumerate().filter(|(_, s)| s.alive).map(|(i, s)| (s.order, sname(i, false).to_string())).collect();
         want_s.sort();
         let got_s: Vec<String> = sm.list_subscriptions_in_project(Box::from("p"), Paging::new(0, None)).map_err(|_| Fail { prop: "C13", what: "list failed".into() })?.subscriptions.iter().map(|t| t.name.to_string()).collect();
-        if got_s != want_s.iter().map(|x| x.1.clone()).collect::<Vec<_>>() { return fail("C13", format!("ListSubscriptions = {:?}, expected {:?}", got_s, want_s)); }
+        let want_sn: Vec<String> = want_s.iter().map(|x| x.1.clone()).collect();
+        if got_s != want_sn { return fail(set_or_order(&got_s, &want_sn), format!("ListSubscriptions = {:?}, expected {:?}", got_s, want_sn)); }
         for (i, t) in topics.iter().enumerate() {
             if !t.alive { continue; }
             let h = tm.get_topic(&tname(i)).map_err(|_| Fail { prop: "C10", what: "live topic not found".into() })?;
             let mut want: Vec<(u64, String)> = t.subs.iter().map(|s| (subs[*s].order, sname(*s, false).to_string())).collect();
             want.sort();
             let got: Vec<String> = match h.list_subscriptions(Paging::new(0, None)).await { Ok(p) => p.subscriptions.iter().map(|s| s.name.to_string()).collect(), Err(_) => return fail("C11", "ListTopicSubscriptions of a live topic failed".into()) };
-            if got != want.iter().map(|x| x.1.clone()).collect::<Vec<_>>() { return fail("C11", format!("ListTopicSubscriptions(t{}) = {:?}, expected {:?}", i, got, want)); }
+            let wantn: Vec<String> = want.iter().map(|x| x.1.clone()).collect();
+            if got != wantn { let tag = set_or_order(&got, &wantn); return fail(if tag == "C13" { "C13" } else { "C11" }, format!("ListTopicSubscriptions(t{}) = {:?}, expected {:?}", i, got, wantn)); }
         }
     }
     Ok(())
@@ -659,7 +690,8 @@ fn gen_lops(rng: &mut Rng, steps: usize) -> Vec<LOp> {
         4 | 5 | 6 => LOp::CreateSub(rng.below(3) as usize, rng.below(2) as usize, rng.below(6) == 0),
         7 => LOp::RaceCreateSub(rng.below(3) as usize, rng.below(2) as usize),
         8 | 9 => LOp::DeleteSub(rng.below(3) as usize),
-        10 | 11 | 12 => LOp::Publish(rng.below(2) as usize, 1 + rng.below(2) as u8),
+        10 | 11 => LOp::Publish(rng.below(2) as usize, 1 + rng.below(2) as u8),
+        12 => LOp::DeleteHeld,
         _ => LOp::DropHandles,
     }).collect()
 }
@@ -676,7 +708,7 @@ fn cmd_lifecycle(seed: u64, iters: usize, steps: usize) -> i32 {
                 match rt().block_on(run_lifecycle(&t)) { Err(f) if f.prop == e.prop => { cur = t; } _ => { i += 1; } }
             }
             let e2 = rt().block_on(run_lifecycle(&cur)).err().unwrap_or(e);
-            println!("WITNESS {{\"kind\":\"lifecycle\",\"property\":\"{}\",\"ops\":{},\"observed\":{:?},\"iteration\":{}}}", e2.prop, lops_json(&cur), e2.what, it);
+            println!("WITNESS {{\"kind\":\"lifecycle\",{},\"ops\":{},\"observed\":{:?},\"iteration\":{}}}", prop_json(e2.prop), lops_json(&cur), e2.what, it);
             return 1;
         }
     }
@@ -722,7 +754,7 @@ fn cmd_order(rounds: usize) -> i32 {
     let rt = tokio::runtime::Builder::new_multi_thread().worker_threads(2).enable_all().build().unwrap();
     for r in 0..rounds {
         if let Err(e) = rt.block_on(run_order(2 + r % 3, 3)) {
-            println!("WITNESS {{\"kind\":\"order\",\"property\":\"{}\",\"publishers\":{},\"observed\":{:?},\"round\":{}}}", e.prop, 2 + r % 3, e.what, r);
+            println!("WITNESS {{\"kind\":\"order\",{},\"publishers\":{},\"observed\":{:?},\"round\":{}}}", prop_json(e.prop), 2 + r % 3, e.what, r);
             return 1;
         }
     }
@@ -742,11 +774,12 @@ fn main() {
         Some("paging") => cmd_paging(args[2].parse().unwrap()),
         Some("lifecycle") => cmd_lifecycle(args[2].parse().unwrap(), args[3].parse().unwrap(), args[4].parse().unwrap()),
         Some("order") => cmd_order(args[2].parse().unwrap()),
+        Some("rpc") => rpc::run_all(),
         Some("run-lifecycle") => {
             let ops = parse_lops(&args[2]);
             match rt().block_on(run_lifecycle(&ops)) {
                 Ok(()) => { println!("NO-WITNESS lifecycle replays without divergence"); 0 }
-                Err(e) => { println!("WITNESS {{\"kind\":\"lifecycle\",\"property\":\"{}\",\"ops\":{},\"observed\":{:?}}}", e.prop, lops_json(&ops), e.what); 1 }
+                Err(e) => { println!("WITNESS {{\"kind\":\"lifecycle\",{},\"ops\":{},\"observed\":{:?}}}", prop_json(e.prop), lops_json(&ops), e.what); 1 }
             }
         }
         Some("run-history") => {
@@ -754,7 +787,7 @@ fn main() {
             let ops = parse_ops(&args[3]);
             match rt().block_on(run_history(&ops, d)) {
                 Ok(()) => { println!("NO-WITNESS history replays without divergence"); 0 }
-                Err(e) => { println!("WITNESS {{\"kind\":\"history\",\"property\":\"{}\",\"ack_deadline_s\":{},\"ops\":{},\"observed\":{:?}}}", e.prop, d, ops_to_json(&ops), e.what); 1 }
+                Err(e) => { println!("WITNESS {{\"kind\":\"history\",{},\"ack_deadline_s\":{},\"ops\":{},\"observed\":{:?}}}", prop_json(e.prop), d, ops_to_json(&ops), e.what); 1 }
             }
         }
         _ => { eprintln!("usage: deltio-replay history|names|paging|run-history ..."); 2 }
